@@ -187,8 +187,8 @@ Proof. intros; reflexivity. Qed.
    - the source field is (a single pointer to) a func / interface / unsafe pointer: untouched;
    - the source field is a nil pointer: untouched;
    - leaf (basic kind, slice, map, chan, array, time.Time; possibly behind one pointer):
-       with a registered converter: the slot holds the converter's result on the original
-       source field value; otherwise the types agree and the (allocated if nil) destination
+       with a registered converter: the converter's result on the original source field value
+       has exactly the destination field's type (never a nil interface) and the slot holds it; otherwise the types agree and the (allocated if nil) destination
        holds the source's value if that value is non-zero or the destination was the zero
        value, and keeps its old value if the source's value is zero (the "zero-skip");
    - struct (possibly behind one pointer on either side): recursively. *)
@@ -218,7 +218,7 @@ Definition field_post (o : options) (dn : Z) (sft : ty) (y : value) (dft : ty) (
     | None => x' = x
     | Some y1 =>
       match find_conv o dn with
-      | Some c => cv_src c = sft /\ cv_dst c = dft /\ cv_fun c y = Some x'
+      | Some c => cv_src c = sft /\ cv_fun c y = Some (CDyn dft x')     (* the result's dynamic type is the field's type *)
       | None =>
         sb = db /\
         exists x1', x' = rewrap (is_ptr_kind dft) x1' /\
